@@ -146,6 +146,9 @@ def run(rep, tier, seed):
                     for r in tr15:
                         for e in r["inner"]:
                             hist["o15_retries"][e[0]] = hist["o15_retries"].get(e[0], 0) + 1
+                            if e[0] == "errFail" and not (e[1] <= 1.0):
+                                # hypothesis `Inner.ok` of the ode15s run theorems: the factor of a failed error test is <= 1
+                                diffs.append(dict(case=dict(case, solver="ode15s"), implementation=f"failed-step factor {e[1]!r} > 1", model="hypothesis Inner.ok of C09_ode15s_* not met"))
                         hist["o15_order_changes"] += int(r.get("k_out", r["k"]) != r["k_in"])
                 for r in O15._verif_trace:
                     if not (1 <= r["k"] <= 5):
